@@ -112,7 +112,7 @@ func (a *Agg) add(prop, label string, rr *RunResult) {
 	if m := num(end["max_live"]); m > a.MaxLive {
 		a.MaxLive = m
 	}
-	for _, k := range []string{"dec_ok", "dec_err", "enc_ok", "enc_err", "size_ok", "size_panic", "legacy", "extents", "sweeps", "blocked_acq"} {
+	for _, k := range []string{"dec_ok", "dec_err", "enc_ok", "enc_err", "size_ok", "size_panic", "legacy", "extents", "sweeps", "blocked_acq", "ext_handoffs"} {
 		a.Counters[k] += num(end[k])
 	}
 	if h, ok := end["sched_hash"].(string); ok {
